@@ -35,6 +35,7 @@ type Env struct {
 	resIdx    int
 	quantDepth int
 	bound      []string // SMT names of the variables bound by enclosing quantifiers
+	typeArgs   map[string]types.Type // type parameters of a generic function's instantiation (T -> its argument)
 }
 
 func (fr *Frame) specEnv(st, old *State) *Env {
@@ -42,12 +43,36 @@ func (fr *Frame) specEnv(st, old *State) *Env {
 	if fr.fn == nil {
 		return env
 	}
+	env.typeArgs = typeArgsOf(fr.fn)
+	if fr.calleeTypeArgs != nil {
+		env.typeArgs = fr.calleeTypeArgs
+	}
 	if fr.fn.Pkg != nil {
 		env.pkg = fr.fn.Pkg.Pkg
 	} else if o := fr.fn.Origin(); o != nil && o.Pkg != nil {
 		env.pkg = o.Pkg.Pkg
 	}
 	return env
+}
+
+// typeArgsOf maps the type-parameter names of a generic function to the type arguments of this instantiation.
+func typeArgsOf(fn *ssa.Function) map[string]types.Type {
+	if fn == nil || len(fn.TypeArgs()) == 0 {
+		return nil
+	}
+	o := fn.Origin()
+	if o == nil {
+		return nil
+	}
+	tps := o.TypeParams()
+	if tps == nil || tps.Len() != len(fn.TypeArgs()) {
+		return nil
+	}
+	m := map[string]types.Type{}
+	for i := 0; i < tps.Len(); i++ {
+		m[tps.At(i).Obj().Name()] = fn.TypeArgs()[i]
+	}
+	return m
 }
 
 func (env *Env) child() *Env {
@@ -107,6 +132,9 @@ func (env *Env) resolveType(te *STypeE) (types.Type, error) {
 		return types.NewMap(k, e), nil
 	}
 	if te.Pkg == "" {
+		if t, ok := env.typeArgs[te.Name]; ok {
+			return t, nil
+		}
 		if te.Name == "any" {
 			return types.Universe.Lookup("any").Type(), nil
 		}
@@ -986,6 +1014,11 @@ func (env *Env) evalCall(e *SCall) (Val, error) {
 			t, err := env.resolveType(te)
 			if err != nil {
 				return Val{}, err
+			}
+			if _, isIface := t.Underlying().(*types.Interface); isIface {
+				// an interface type as T (e.g. a type parameter instantiated with any): x.(T) succeeds iff the
+				// dynamic type implements T
+				return Val{T: env.fr.implementsTerm(fieldOf(x.T, "mkIface", 0, "itag", SInt), t)}, nil
 			}
 			return Val{T: tEq(fieldOf(x.T, "mkIface", 0, "itag", SInt), tInt(int64(env.te().TypeTag(t))))}, nil
 		case "unbox":
